@@ -103,6 +103,14 @@ pub struct Cpu {
     pub armed: bool,
     /// when on, INVLPGB requests are checked as they are executed instead of being stored (ranges that need > MAX_EV requests)
     pub inv_stream: InvStream,
+    /// step mode: every instruction whose address lies in [trace_lo, trace_hi) is recorded (address, first 4 bytes)
+    pub trace_lo: u64,
+    pub trace_hi: u64,
+    pub itrace: [(u64, [u8; 4]); 64],
+    pub nitrace: usize,
+    /// when non-zero: an emulated write to CR3 also stores (new root frame | 3) at this address — the memory seen through
+    /// a recursive address changes with the root
+    pub cr3_write_store: u64,
 }
 
 /// streaming oracle for broadcast range flushes (same rules as c11::invlpgb_case, applied request by request)
@@ -191,6 +199,11 @@ pub static mut CPU: Cpu = Cpu {
     iret_rsp: 0,
     unknown_fault: 0,
     inv_stream: InvStream::OFF,
+    trace_lo: 0,
+    trace_hi: 0,
+    itrace: [(0, [0; 4]); 64],
+    nitrace: 0,
+    cr3_write_store: 0,
     armed: false,
 };
 
@@ -549,6 +562,9 @@ pub unsafe fn emulate(uc: &mut ucontext_t) -> bool {
                         0x22 => {
                             let v = rd(uc, r);
                             c.cr[n as usize] = if n == 3 { v & !(1u64 << 63) } else { v };
+                            if n == 3 && c.cr3_write_store != 0 {
+                                core::ptr::write_volatile(c.cr3_write_store as *mut u64, (v & 0x000f_ffff_ffff_f000) | 3);
+                            }
                             Ev::WriteCr(n, v)
                         }
                         0x21 => {
@@ -745,6 +761,11 @@ pub unsafe fn on_signal(sig: c_int, info: *mut siginfo_t, uc: &mut ucontext_t) -
                 c.mode = Mode::Off;
                 c.stop_requested = false;
                 return true;
+            }
+            if rip >= c.trace_lo && rip < c.trace_hi && c.nitrace < c.itrace.len() {
+                let p = rip as *const u8;
+                c.itrace[c.nitrace] = (rip, [*p, *p.add(1), *p.add(2), *p.add(3)]);
+                c.nitrace += 1;
             }
             if !emulate(uc) {
                 break;
